@@ -166,7 +166,7 @@ func runC06(p *core.Program, r *core.Report) {
 	}
 	// the shipped lists hold no empty and no duplicate entry (an empty word is dropped from the password but counted
 	// in log2(Size); = C16 R16.5 re-run)
-	borrowSelected(p, r, runC16, "R6.5", func(o core.Obligation) bool { return o.Rule == "R16.5" })
+	borrowSelected(p, r, runC16, "R6.5", func(o core.Obligation) bool { return o.Rule == "R16.5" || o.Rule == "R16.6" && mentionsVar(o.Construct, "AgileWords", "AgileSyllables") })
 }
 
 // checkDrawTermAgreement: schemes with a bonus in Entropy == schemes that draw in Generate, with matching bounds.
